@@ -1,5 +1,6 @@
 import Mdsort.Proofs.WorldExitInv
 import Mdsort.Proofs.WorldDirsSame
+import Mdsort.Proofs.WorldFuel
 
 /-!
 # A directory is opened; the walk over one maildir, under at most one fault
@@ -118,8 +119,9 @@ theorem exit0_rem_of_obj {w : World} {d : Handle} {p : Bytes} {names : List Byte
     (h : w.obj d = .dir p (some names) pos) : exit0_rem w d = names.drop pos := by
   simp [exit0_rem, h]
 
-/-- `exit0_walk` with one more fact: a walk that started in `new` and ends without the error flag has opened
-`cur`, so that directory exists (no call of a walk creates or removes a directory: `dirsSame_walk`). -/
+/-- `exit0_walk` with two more facts: a walk that started in `new` and ends without the error flag has opened
+`cur`, so that directory exists (no call of a walk creates or removes a directory: `dirsSame_walk`); and it did not run
+out of fuel (`fuelOut` is what it was): the allowance `rem + 1 (+ registered files of cur + 3)` covers every iteration. -/
 theorem exit0_walk' (C : exit0_Ctx) (hG : exit0_Good C) (e : Expr) (hstep : exit0_StepOK C.env C.orc e) (fuel : Nat) :
     ∀ (md : Maildir) (st : MainSt) (w : World) (b : Bool) (pre later : List (Bytes × Expr)) (rem : List Bytes) (d : Handle),
       md.dirH = some d → md.stdin = false → WholeMdOk w md →
@@ -131,7 +133,8 @@ theorem exit0_walk' (C : exit0_Ctx) (hG : exit0_Good C) (e : Expr) (hstep : exit
           (st.files.filter (fun x => x.1 == md.root ++ [47] ++ subdirName .cur)).length + 3 else 0) ≤ fuel →
       wpS (walk C.env C.orc e fuel md st)
         (fun _ r w' => r.1.error = false → exit0_Inv C (if md.subdir = .new then later.tail else later) none r.1 w' ∧
-          (md.subdir = .new → (w'.dir (md.root ++ [47] ++ subdirName .cur)).isSome = true)) b w := by
+          (md.subdir = .new → (w'.dir (md.root ++ [47] ++ subdirName .cur)).isSome = true) ∧
+          r.1.fuelOut = st.fuelOut) b w := by
   induction fuel with
   | zero =>
     intro md st w b pre later rem d _ _ _ _ _ _ _ _ _ hf
@@ -173,7 +176,7 @@ theorem exit0_walk' (C : exit0_Ctx) (hG : exit0_Good C) (e : Expr) (hstep : exit
       | cur =>
         simp only [reduceCtorEq, if_false]
         intro _
-        exact ⟨hinvE, fun h => by cases h⟩
+        exact ⟨hinvE, (fun h => by cases h), rfl⟩
       | new =>
         obtain ⟨later', hlater⟩ := hnew hsub
         simp only [if_true]
@@ -224,7 +227,7 @@ theorem exit0_walk' (C : exit0_Ctx) (hG : exit0_Good C) (e : Expr) (hstep : exit
             · rw [hs, hlater, ← hpeq]; simp
             · rintro _ r w' ⟨hpost, hsame⟩ hne
               have := (hpost hne).1
-              refine ⟨by simpa [hlater] using this, fun _ => ?_⟩
+              refine ⟨by simpa [hlater] using this, fun _ => ?_, (hpost hne).2.2⟩
               rw [← hpeq, hsame p, hdir3]
               rfl
     · -- a name
@@ -250,10 +253,11 @@ theorem exit0_walk' (C : exit0_Ctx) (hG : exit0_Good C) (e : Expr) (hstep : exit
         have hget : st.files.get md.path n = some c :=
           (hinv1.track md.path e n c hmemD hc hdotF).1 (.inr ⟨_, _, _, rfl, rfl, List.mem_cons_self .., hdotF⟩)
         obtain ⟨fid, hl, hlt, hf⟩ := hinv1.reg md.path n c hget
-        have hpm := exit0_wpS_unique (hstep md n st w1 d c fid b' hd (hmd1.1 d hd) hmd1.2 hget hl hlt hf) hinv1.uniq
+        have hpm := World.wpS_and (exit0_wpS_unique (hstep md n st w1 d c fid b' hd (hmd1.1 d hd) hmd1.2 hget hl hlt hf) hinv1.uniq)
+          (exit0_wpS_all (Fuel.processMessage_fuelOut C.env C.orc e md n st) b' w1)
         refine wpS_bind_mono hpm ?_
-        rintro b2 ⟨st', md'⟩ w2 ⟨⟨hmd', k, hregp, hdet⟩, hu2⟩
-        simp only at hmd'
+        rintro b2 ⟨st', md'⟩ w2 ⟨⟨⟨hmd', k, hregp, hdet⟩, hu2⟩, hfo⟩
+        simp only at hmd' hfo
         subst hmd'
         dsimp only
         by_cases herr2 : st'.error = true
@@ -270,7 +274,8 @@ theorem exit0_walk' (C : exit0_Ctx) (hG : exit0_Good C) (e : Expr) (hstep : exit
             intro d' hd'
             have hp1 := hmd1.1 d' hd'
             exact k.dirPath hp1 (World.lt_of_dirPath hp1)
-          refine ih md' st' w2 b2 pre later t d hd hsd hmd2 ⟨_, _, hobj2⟩ hrem2 hs hnew hrok.tail hinv2 ?_
+          refine wpS_mono (ih md' st' w2 b2 pre later t d hd hsd hmd2 ⟨_, _, hobj2⟩ hrem2 hs hnew hrok.tail hinv2 ?_)
+            (fun _ r _ hp he => ⟨(hp he).1, (hp he).2.1, (hp he).2.2.trans hfo⟩)
           rw [hlen] at hfuel
           by_cases hsub : md'.subdir = .new
           · obtain ⟨later', hlater⟩ := hnew hsub
